@@ -289,12 +289,17 @@ def check_run(case, root, allowed, before, r, refusal):
 def classify_ops(ops):
     """eligible ops of the fault-free run -> list of dicts"""
     res = []
+    seen = {}
     for op in ops:
         if not isinstance(op[0], int) or len(op) < 5 or not op[1]:
             continue
         strs = [x for x in op[4:] if isinstance(x, str)]
         phase = [x for x in strs if not (x.startswith("w") and x[1:].isdigit())]
-        res.append({"idx": op[1], "kind": op[2], "path": op[3], "phase": phase[-1] if phase else "?"})
+        key = (op[2], op[3])
+        seen[key] = seen.get(key, 0) + 1
+        # an operation is identified by (kind, path, occurrence): the order in which FORD writes
+        # independent graph files follows id()-hashed sets and is not part of any property
+        res.append({"idx": op[1], "kind": op[2], "path": op[3], "phase": phase[-1] if phase else "?", "nth": seen[key]})
     return res
 
 
@@ -350,13 +355,15 @@ def make_fault_plans(rng, ops, n_want, sweep=False):
 
 
 def fault_spec(o, a):
+    base = {"kind": o["kind"], "path": o["path"], "nth": o["nth"], "op": None, "at": o["idx"], "in_phase": o["phase"]}
+    del base["op"]
     if a == "kill":
-        return {"op": o["idx"], "action": "kill"}
+        return dict(base, action="kill")
     if a == "childfail":
-        return {"op": o["idx"], "action": "childfail"}
+        return dict(base, action="childfail")
     if a[0] == "errno":
-        return {"op": o["idx"], "action": "errno", "errno": a[1]}
-    return {"op": o["idx"], "action": "torn", "keep": a[1]}
+        return dict(base, action="errno", errno=a[1])
+    return dict(base, action="torn", keep=a[1])
 
 
 def run_once(case, seed, workdir, faults, pool_seed=1):
@@ -414,7 +421,7 @@ def evaluate(case, seed, workdir, tier, plans=None, sweep=False):
             for _ in range(6):  # two-fault plans: a handled error followed by a second failure
                 if len(fl) >= 2:
                     (o1, a1), (o2, a2) = sorted(rng.sample(fl, 2), key=lambda t: t[0]["idx"])
-                    if a1 != "kill" and o1["idx"] != o2["idx"]:
+                    if a1 != "kill" and o1["idx"] != o2["idx"] and (o1["kind"], o1["path"]) != (o2["kind"], o2["path"]):
                         plans.append([fault_spec(o1, a1), fault_spec(o2, a2)])
     byidx = {o["idx"]: o for o in ops}
     for plan in plans:
@@ -430,7 +437,7 @@ def evaluate(case, seed, workdir, tier, plans=None, sweep=False):
         if r["status"] == "killed":
             fired = [f for f in plan if f["action"] == "kill"]
             last = [op for op in r["ops"] if isinstance(op[0], int)]
-            ph = byidx.get(plan[-1]["op"], {}).get("phase", "?")
+            ph = plan[-1].get("in_phase", "?")
             pr["kill_in_phase_" + ph] = pr.get("kill_in_phase_" + ph, 0) + 1
             out["fired"]["kill"] = out["fired"].get("kill", 0) + 1
         else:
@@ -439,22 +446,20 @@ def evaluate(case, seed, workdir, tier, plans=None, sweep=False):
                 out["fired"][key] = out["fired"].get(key, 0) + 1
                 pr["fault_in_phase_" + f["phase"]] = pr.get("fault_in_phase_" + f["phase"], 0) + 1
                 pr["fault_on_" + f["kind"]] = pr.get("fault_on_" + f["kind"], 0) + 1
-                exp = byidx.get(f["op"])
-                if exp and (exp["kind"] != f["kind"] or exp["path"] != f["path"]):
-                    pr["plan_drift"] = pr.get("plan_drift", 0) + 1
+                if f["op"] != plan[0].get("at"):
+                    pr["op_index_moved"] = pr.get("op_index_moved", 0) + 1
             for k, v in (r["result"].get("probes") or {}).items():
                 if k in ("torn_write_fired", "childfail_fired"):
                     pr[k] = pr.get(k, 0) + v
             if r["result"]["outcome"]["kind"] == "ok":
                 pr["run_survived_fault"] = pr.get("run_survived_fault", 0) + 1
-        o = byidx.get(plan[0]["op"], {})
-        out["nontrivial"].append((case["idx"], plan[0]["op"], plan[0]["action"], plan[0].get("errno"), len(plan)))
-        out["traces"].add("%s/%s/%s" % (o.get("phase"), o.get("kind"), plan[0]["action"]))
+        o = plan[0]
+        out["nontrivial"].append((case["idx"], o["kind"], o["path"], o["nth"], plan[0]["action"], plan[0].get("errno"), len(plan)))
+        out["traces"].add("%s/%s/%s" % (o.get("in_phase"), o.get("kind"), plan[0]["action"]))
         for sig, what in fnd:
-            o = byidx.get(plan[0]["op"], {})
-            out["findings"].append((sig, "[fault %s at op %d: %s %s, phase %s] %s"
+            out["findings"].append((sig, "[fault %s at %s #%d of %s, phase %s] %s"
                                     % (plan[0]["action"] + (":" + plan[0]["errno"] if plan[0].get("errno") else ""),
-                                       plan[0]["op"], o.get("kind"), o.get("path"), o.get("phase"), what), plan))
+                                       o.get("kind"), o.get("nth"), o.get("path"), o.get("in_phase"), what), plan))
     out["traces"] = sorted(out["traces"])
     out["n_ops"] = len(ops)
     out["n_mut"] = n_mut
@@ -469,7 +474,7 @@ def world_task(seed, idx, tier, batch, sweep=False):
     r["place"] = case["place"]
     r["sample"] = {"place": case["place"], "cwd": case["cwd"], "graph_dir": case["graph_dir"],
                    "options": case["options"], "n_eligible_ops": r.get("n_ops"),
-                   "faults": [list(x) for x in r["nontrivial"][:4]]}
+                   "faults": [list(x)[1:] for x in r["nontrivial"][:4]]}
     seen = set()
     f2 = []
     for f in r["findings"]:
